@@ -10,7 +10,8 @@ PID = "C14"
 ANCHORS = ["scores.py:Scores.bootstrap_metric", "scores.py:Scores.bootstrap_ci", "scores.py:Scores.bootstrap_sample", "utils.py:bootstrap_ci"]
 RAISES_ARE_VIOLATIONS = True
 DECIDING = {"R-boot": 2095, "M-bci": 703}
-THOROUGH_EXTRA = ["W2"]
+QUICK_EXTRA = ["W3"]
+THOROUGH_EXTRA = ["W2", "W3"]
 RULE = (
     "M-bs records every sample produced during a call, M-bci records and judges (stdlib reference) what reached the CI formula. R-boot per "
     "case: bootstrap_metric has nb_samples rows of the metric's own shape and dtype, row j == metric(recorded sample j) (exact, NaN-aware); "
@@ -18,7 +19,7 @@ RULE = (
     "kwargs reach the metric; metric names resolve on type(self) ('group_fnr' on GroupScores has shape (S,G,T)); bootstrap_ci hands the CI "
     "formula exactly (replicates from the recorded samples, metric(original), alpha, config.bootstrap_method) and returns its result; an "
     "identity sampler collapses both limits onto the point estimate; the same global seed reproduces every result bit-for-bit, a different "
-    "seed changes the replicates (sources with >= 20 scores). W1: metrics by name (fnr, eer, threshold_at_fpr with method=, auc with kwargs, "
+    "seed changes the replicates (sources with >= 20 scores). W3 (R-hashseed): the same seeded bootstrap computations on GroupScores with string labels are repeated in child processes started with other PYTHONHASHSEED values and must give bit-identical digests. W1: metrics by name (fnr, eer, threshold_at_fpr with method=, auc with kwargs, "
     "group_fnr) and callables with scalar / vector / matrix / integer output; all built-in sampling configurations; quantile/bc/bca; "
     "Scores and GroupScores. Non-trivial: always; distinct = hash of inputs."
 )
@@ -26,6 +27,68 @@ ASSUMPTIONS = ["both classes non-empty", "NumPy global RandomState seeded per ca
 SAMPLERS = [("replacement", None), ("replacement", "by_label"), ("single_pass", None), ("single_pass", "by_label"), ("dynamic", None), ("dynamic", "by_label"),
             ("proportion", None), ("custom", None), ("identity", None)]
 METRICS = ["fnr", "eer", "thr", "auc", "cm_int", "vec_callable", "scalar_callable", "tpr_alias", "partly_nan", "partly_nan"]
+
+
+def digest_cases(seed, n):
+    """Deterministic bootstrap computations on GroupScores/Scores with string labels; run both in the checking process and in
+    child processes started with other PYTHONHASHSEED values: 'for a fixed global RNG seed all bootstrap results are
+    reproducible' must not depend on the interpreter's hash randomisation (iteration order of sets/dicts of labels)."""
+    import hashlib
+
+    from score_analysis import BootstrapConfig, GroupScores
+
+    rng = np.random.default_rng([seed, 99])
+    names = ["north", "south", "east", "west", "centre", "x_1", "Zeta"]
+    out = []
+    for i in range(n):
+        G = int(rng.integers(2, 7))
+        npos, nneg = (int(rng.integers(20, 60)), int(rng.integers(20, 60))) if i % 3 else (int(rng.integers(100, 130)), int(rng.integers(100, 130)))
+        gs = GroupScores(rng.normal(1, 1, npos), rng.normal(0, 1, nneg), pos_groups=rng.choice(names[:G], npos), neg_groups=rng.choice(names[:G], nneg))
+        cfg = BootstrapConfig(nb_samples=6, bootstrap_method="quantile", sampling_method=["replacement", "dynamic", "single_pass"][i % 3],
+                              stratified_sampling=[None, "by_group", "by_label", "by_group"][i % 4] if i % 3 != 2 else [None, "by_label"][i % 2])
+        np.random.seed(4321 + i)
+        b = gs.bootstrap_sample(cfg)
+        res = gs.bootstrap_metric("group_fpr", config=cfg, threshold=np.array([0.4, 0.9]))
+        ci = gs.bootstrap_ci("group_fnr", config=cfg, threshold=np.array([0.4]))
+        h = hashlib.blake2b(digest_size=8)
+        for a_ in (b.pos, b.neg, res, ci):
+            h.update(np.ascontiguousarray(np.nan_to_num(np.asarray(a_, dtype=float), nan=-7.0)).tobytes())
+        h.update("|".join(str(g) for g in b.pos_groups).encode())
+        out.append(h.hexdigest())
+    return out
+
+
+def scenarios(ctx):
+    yield {"hashseed_children": [1, 77] if ctx.tier == "quick" else [1, 77, 4242], "n": 12 if ctx.tier == "quick" else 40, "_seed": int(ctx.rng.integers(1 << 30)),
+           "pos": np.zeros(0), "neg": np.zeros(0)}
+
+
+def _hashseed_check(ctx, case):
+    import json
+    import os
+    import subprocess
+    import sys
+
+    from .. import runner
+
+    sess = ctx.sess
+    mine = digest_cases(case["_seed"], case["n"])
+    sess.observe("R-hashseed")
+    for hs in case["hashseed_children"]:
+        code = ("import sys, json, warnings; warnings.simplefilter('ignore'); sys.path[:0] = [%r, %r]; from vmon.props import C14; "
+                "print('DIGESTS' + json.dumps(C14.digest_cases(%d, %d)))") % (runner.REPO, runner.VERIF_ROOT, case["_seed"], case["n"])
+        env = dict(os.environ, PYTHONHASHSEED=str(hs))
+        r = subprocess.run([sys.executable, "-B", "-c", code], capture_output=True, text=True, env=env, timeout=600)
+        line = next((ln for ln in r.stdout.splitlines() if ln.startswith("DIGESTS")), None)
+        if r.returncode != 0 or line is None:
+            raise RuntimeError(f"hash-seed child failed: {r.stderr[-400:]}")
+        theirs = json.loads(line[len("DIGESTS"):])
+        diff = [i for i, (a, b) in enumerate(zip(mine, theirs)) if a != b]
+        sess.check("R-hashseed", not diff and len(mine) == len(theirs),
+                   "bootstrap results under a fixed global seed differ between interpreter processes (PYTHONHASHSEED)",
+                   {"hashseed_parent": os.environ.get("PYTHONHASHSEED"), "hashseed_child": hs, "differing_cases": diff[:10], "nb_cases": len(mine)},
+                   sig=("hashseed", hs), key="boot-hashseed")
+    return True
 
 
 def install(ctx):
@@ -57,6 +120,8 @@ def execute(ctx, case):
     from score_analysis import BootstrapConfig, GroupScores, Scores
 
     sess = ctx.sess
+    if "hashseed_children" in case:
+        return _hashseed_check(ctx, case)
     pos, neg, sc, ec = case["pos"], case["neg"], case["sc"], case["ec"]
     th = case["thr"]
     rng = np.random.default_rng(case["_seed"])
